@@ -368,6 +368,12 @@ fn run_extract_inner(
                 viol!("extract-escape", "{}: reported {} resolves outside the temporary directory", arg, r);
             }
         }
+        // one reported entry per matching member: a member that was not requested must not be extracted on
+        // top of an alias that was
+        let n_matching = members.iter().filter(|m| !m.is_dir && !m.name.ends_with('/') && (m.name == pattern.as_str() || pattern.matches(&m.name)) && stays_inside(&m.name)).count();
+        if res.len() != n_matching && !refused {
+            viol!("extract-count", "{}: {} entries reported ({:?}) but {} members match the pattern and stay inside (members {:?})", arg, res.len(), res, n_matching, members.iter().map(|m| &m.name).collect::<Vec<_>>());
+        }
         let exp_set: BTreeSet<PathBuf> = expected.keys().cloned().collect();
         if got != exp_set {
             viol!(
